@@ -33,7 +33,7 @@ SCENARIOS = {
     "C16": [("server-shutdown", ["server-shutdown", str(i)]) for i in range(1, 7)],
     "C04": [("store-concurrent", ["store-concurrent", str(i), "1500"]) for i in range(1, 9)],
     "C10": [("frame-search", ["frame-search"]), ("frame-deep", ["frame-deep", "200000"]), ("server-hostile", ["server-hostile"])] + [("server-search", ["server-search", str(i)]) for i in range(4)],
-    "C06": [("frame-search", ["frame-search"]), ("conn-search", ["conn-search"])] + [("server-search", ["server-search", str(i)]) for i in range(24)],
+    "C06": [("frame-search", ["frame-search"]), ("conn-search", ["conn-search"]), ("client-search", ["client-search"])] + [("server-search", ["server-search", str(i)]) for i in range(24)],
 }
 KNOWN_SCENARIOS = {
     # scenarios that re-confirm an open known finding on the real code: (kind, argv)
